@@ -1186,17 +1186,17 @@ class Fxp():
     def __int__(self):
         if self.size > 1:
             raise TypeError('only length-1 arrays can be converted to Python scalars')
-        return int(self.astype(int))
+        return int(np.asarray(self.astype(int)).reshape(-1)[0])    # (a length-1 array of any number of dimensions)
 
     def __float__(self):
         if self.size > 1:
             raise TypeError('only length-1 arrays can be converted to Python scalars')
-        return float(self.astype(float))
+        return float(np.asarray(self.astype(float)).reshape(-1)[0])
 
     def __complex__(self):
         if self.size > 1:
             raise TypeError('only length-1 arrays can be converted to Python scalars')
-        return complex(self.astype(complex))
+        return complex(np.asarray(self.astype(complex)).reshape(-1)[0])
     
     # representation
     
@@ -1795,6 +1795,10 @@ class Fxp():
                     args_converted.append(arg)
             # call func
             val = func(*args_converted, **kwargs)
+
+        if out is None and out_like is None and (isinstance(val, (bool, np.bool_)) or (isinstance(val, np.ndarray) and val.dtype == bool)):
+            # truth values (comparisons with a NumPy number on the left, logical functions) are not fixed-point quantities
+            return val
 
         if out is not None:
             return out(val)
